@@ -21,6 +21,8 @@ pub use repr::Reduced;
 mod add;
 #[cfg(dashu_verif)]
 pub use add::verif_large_op;
+#[cfg(dashu_verif)]
+pub use div::verif_inv_large;
 pub(crate) mod convert;
 mod div;
 mod fmt;
